@@ -566,14 +566,14 @@ fn iter_exhaustive(sink: &mut Sink, rng: &mut Rng, max_entries: usize, max_calls
                 let hk = rng.pick(&[HKind::Mix, HKind::Const, HKind::Ident]);
                 let mut w = sink.begin_seq(hk, "iter-exhaustive");
                 setup_entries(sink, &mut w, n, usize::MAX, None);
-                let op = OpKind::It { kind, calls: calls.clone(), forget, unwind: !forget && idx % 3 == 0 };
+                let op = OpKind::It { kind, calls: calls.clone(), forget, unwind: !forget && idx % 3 == 0, via: if !forget && idx % 3 == 1 { 1 + (idx % 5) as u8 } else { 0 } };
                 sink.step(&mut w, &gen::mk_line(true, Op::On { c: 0, op }));
                 if !kind.consumes() {
                     // the cache must be fully usable afterwards
                     let kt = types::peek_next_tok();
                     sink.step(&mut w, &gen::mk_line(true, Op::On { c: 0, op: OpKind::Ins { id: 100, kh: 0, kt, vh: 3, vt: kt + 1 } }));
                     sink.step(&mut w, &gen::mk_line(true, Op::On { c: 0, op: OpKind::Get(0) }));
-                    sink.step(&mut w, &gen::mk_line(true, Op::On { c: 0, op: OpKind::It { kind: IterKind::Iter, calls: vec![true, false, true], forget: false, unwind: false } }));
+                    sink.step(&mut w, &gen::mk_line(true, Op::On { c: 0, op: OpKind::It { kind: IterKind::Iter, calls: vec![true, false, true], forget: false, unwind: false, via: 0 } }));
                 }
                 sink.end_seq(w);
             }
@@ -867,7 +867,7 @@ fn big_evict(sink: &mut Sink, _rng: &mut Rng, shard: (u64, u64)) {
                 };
                 sink.step(&mut w, &gen::mk_line(true, Op::On { c: 0, op }));
                 sink.step(&mut w, &gen::mk_line(true, Op::On { c: 0, op: OpKind::GetLru }));
-                sink.step(&mut w, &gen::mk_line(true, Op::On { c: 0, op: OpKind::It { kind: IterKind::Keys, calls: vec![true, false], forget: false, unwind: false } }));
+                sink.step(&mut w, &gen::mk_line(true, Op::On { c: 0, op: OpKind::It { kind: IterKind::Keys, calls: vec![true, false], forget: false, unwind: false, via: 0 } }));
                 sink.end_seq(w);
             }
         }
@@ -1049,7 +1049,7 @@ fn exhaustive(sink: &mut Sink, depth: usize, shard: (u64, u64)) {
         |_, _, _| OpKind::RetainIdx(vec![false, true]),
         |_, _, _| OpKind::ShrinkFit,
         |_, _, _| OpKind::Reserve(5),
-        |_, _, _| OpKind::It { kind: IterKind::Drain, calls: vec![true], forget: false, unwind: false },
+        |_, _, _| OpKind::It { kind: IterKind::Drain, calls: vec![true], forget: false, unwind: false, via: 0 },
         |_, _, _| OpKind::Clear,
     ];
     let a = alphabet.len();
